@@ -12,7 +12,7 @@ ASSUMPTIONS = [
     "competitor tasks only await asyncio.sleep(0); the explorer picks the next ready handle (superset of FIFO)",
 ]
 MODE = sched.Mode("C30", tocks=True, rets=True, raises=True, enterdone=True, enterfail=True, horizon=3,
-                  limits=(None, 2.0, 2.5, 0.3), always=True, callcfg=True, rerun=True, prerun=True, sysexit=True, stale=True)
+                  limits=(None, 2.0, 2.5, 0.3), always=True, callcfg=True, rerun=True, prerun=True, sysexit=True, stale=True, dupdoer=True)
 
 
 def BOUND(tier):
@@ -50,7 +50,7 @@ def view(w):
 def harness(job, ch):
     shape, ncomp = job[1], job[2]
     base = sched.run(("C30", shape) + tuple(x for x in job[3:] if x == "sweep"), ch, mode=MODE)
-    cfg = (base.T, base.start, base.limit, base.via)
+    cfg = (base.T, base.start, base.limit, base.via, base.sgn, base.dup)
     kmap = dict(base.kindsel)
     spins = [0]
 
